@@ -842,4 +842,21 @@ theorem bare_flat_total (o : SubsetOut) (tree : List Node) (id : List Char)
   obtain ⟨vs, hv⟩ := valuesOf_total o.vals hits hall
   exact ⟨hits, vs, hh, hv, bare_flat o tree id hits vs hidx hord hh hv⟩
 
+theorem mapIdx_mem {β : Type} (f : Nat → CM β) : ∀ (l : List Nat) (rs : List β), mapIdx f l = .ok rs →
+    ∀ q ∈ rs, ∃ i ∈ l, f i = .ok q
+  | [], rs, h, q, hq => by simp only [mapIdx] at h; cases h; simp at hq
+  | i :: is, rs, h, q, hq => by
+    simp only [mapIdx] at h
+    split at h
+    · cases h
+    · next b hb =>
+      split at h
+      · cases h
+      · next bs hbs =>
+        cases h
+        rcases List.mem_cons.mp hq with rfl | hq'
+        · exact ⟨i, List.mem_cons_self, hb⟩
+        · obtain ⟨j, hj, hfj⟩ := mapIdx_mem f is bs hbs q hq'
+          exact ⟨j, List.mem_cons_of_mem _ hj, hfj⟩
+
 end Bufr.C16
